@@ -1,5 +1,7 @@
-(* C19: a field made of well-formed elements is returned in full.  Rendering of elements with token parameters and the
-   proof that _AcceptElement.parse (model: accept_parse) reads every one of them back with its parameters. *)
+(* C19: a field made of well-formed elements is returned in full.  Rendering of elements with token parameters (media-range
+   parameters before the quality value, accept-ext parameters after it) and the proof that _AcceptElement.parse (model:
+   accept_parse) reads every one of them back with its parameters.  Accept-ext parameters are only well formed for the
+   variant of the model in which they are supported ([vx] = Repaired). *)
 From Coq Require Import ZArith Sorting.Permutation.
 From Httoop Require Import Model.ElemLex Model.Accept Proofs.ElemLex Proofs.SortLemmas Proofs.Accept.
 Local Open Scope N_scope.
@@ -64,23 +66,47 @@ Proof. vm_compute. repeat split; reflexivity. Qed.
 
 Definition chunk (kv : bytes * bytes) : bytes := fst kv ++ EQC :: snd kv.
 Definition render_params (ps : list (bytes * bytes)) : bytes := flat_map (fun kv => SEMI :: chunk kv) ps.
-Definition render_q (qt : option bytes) : bytes := match qt with Some t => SEMI :: LQ :: EQC :: t | None => [] end.
-Definition render_elem (el : bytes * list (bytes * bytes) * option bytes) : bytes :=
+(* a listed element: value, media-range parameters, and - if it has a quality value - the q text and the accept-ext parameters *)
+Definition xel : Type := bytes * list (bytes * bytes) * option (bytes * list (bytes * bytes)).
+Definition render_q (qt : option (bytes * list (bytes * bytes))) : bytes :=
+  match qt with Some (t, ext) => SEMI :: LQ :: EQC :: t ++ render_params ext | None => [] end.
+Definition render_elem (el : xel) : bytes :=
   let '(v, ps, qt) := el in v ++ render_params ps ++ render_q qt.
 
 Definition wf_param (kv : bytes * bytes) : bool := tokenp (fst kv) && tokenp (snd kv).
-(* value, parameters (distinct names, none of them q), q text *)
-Definition wf_elem (el : bytes * list (bytes * bytes) * option bytes) : bool :=
+Definition no_ext (vx : variant) (ext : list (bytes * bytes)) : bool :=
+  match vx, ext with AsFound, _ :: _ => false | _, _ => true end.
+(* q text and accept-ext parameters (distinct names, none of them q or the name of a media-range parameter; none at all
+   for the code as found) *)
+Definition wf_q (vx : variant) (ps : list (bytes * bytes)) (qt : option (bytes * list (bytes * bytes))) : bool :=
+  match qt with
+  | Some (t, ext) => tokenp t && forallb wf_param ext && negb (has_dup_key [] ext) && negb (existsb (has_key (ps ++ [(QKEY, t)])) ext) && no_ext vx ext
+  | None => true
+  end.
+(* value, parameters (distinct names, none of them q), quality value *)
+Definition wf_elem (vx : variant) (el : xel) : bool :=
   let '(v, ps, qt) := el in
-  tokenv v && forallb wf_param ps && negb (has_dup_key [] ps) && negb (is_some (get_param QKEY ps)) &&
-  match qt with Some t => tokenp t | None => true end.
+  tokenv v && forallb wf_param ps && negb (has_dup_key [] ps) && negb (is_some (get_param QKEY ps)) && wf_q vx ps qt.
 
-Lemma wf_elem_inv v ps qt : wf_elem (v, ps, qt) = true ->
+Lemma wf_elem_inv vx v ps qt : wf_elem vx (v, ps, qt) = true ->
   tokenv v = true /\ forallb wf_param ps = true /\ has_dup_key [] ps = false /\ get_param QKEY ps = None /\
-  match qt with Some t => tokenp t = true | None => True end.
+  match qt with
+  | Some (t, ext) => tokenp t = true /\ forallb wf_param ext = true /\ has_dup_key [] ext = false /\
+                     existsb (has_key (ps ++ [(QKEY, t)])) ext = false /\ no_ext vx ext = true
+  | None => True
+  end.
 Proof.
-  unfold wf_elem. destruct (tokenv v), (forallb wf_param ps), (has_dup_key [] ps), (get_param QKEY ps); cbn; try discriminate.
-  intros H. repeat split. destruct qt; [exact H | exact I].
+  unfold wf_elem. destruct (tokenv v), (forallb wf_param ps), (has_dup_key [] ps), (get_param QKEY ps); cbn [andb negb is_some]; try discriminate.
+  intros H. repeat split. destruct qt as [[t ext]|]; [|exact I]. unfold wf_q in H.
+  destruct (tokenp t), (forallb wf_param ext), (has_dup_key [] ext), (existsb (has_key (ps ++ [(QKEY, t)])) ext), (no_ext vx ext);
+    cbn in H; try discriminate. repeat split.
+Qed.
+
+(* an element that is well formed for the code as found (no accept-ext parameters) is well formed after the repair *)
+Lemma wf_elem_mono vx el : wf_elem AsFound el = true -> wf_elem vx el = true.
+Proof.
+  destruct vx; [trivial|]. destruct el as [[v ps] [[t ext]|]]; [|trivial]. unfold wf_elem, wf_q, no_ext.
+  destruct ext; [trivial|]. rewrite !andb_false_r. discriminate.
 Qed.
 
 Lemma tokenv_inv v : tokenv v = true -> isnil v = false /\ forallb vch v = true.
@@ -108,29 +134,42 @@ Proof.
   eapply forallb_impl; [|apply chunk_vch, H1]. intros c Hc. rewrite Hc. reflexivity.
 Qed.
 
-Lemma render_elem_chars el : wf_elem el = true ->
+(* the q text followed by the accept-ext parameters *)
+Lemma q_tail_chars t ext : tokenp t = true -> forallb wf_param ext = true ->
+  forallb (fun c => vch c || beq c SEMI) (t ++ render_params ext) = true.
+Proof.
+  intros Tq We. apply tokenp_inv in Tq as [_ Pt]. rewrite forallb_app. apply andb_true_iff. split.
+  - eapply forallb_impl; [|apply tokenp_vch, Pt]. intros c Hc. rewrite Hc. reflexivity.
+  - apply render_params_vch_semi, We.
+Qed.
+
+Lemma render_elem_chars vx el : wf_elem vx el = true ->
   forallb (fun c => vch c || beq c SEMI) (render_elem el) = true.
 Proof.
   destruct el as [[v ps] qt]. intros H. apply wf_elem_inv in H as (Tv & W & _ & _ & Tq). unfold render_elem.
   rewrite !forallb_app. apply andb_true_iff. split; [|apply andb_true_iff; split].
   - apply tokenv_inv in Tv as [_ Pv]. eapply forallb_impl; [|exact Pv]. intros c Hc. rewrite Hc. reflexivity.
   - apply render_params_vch_semi. assumption.
-  - destruct qt as [t|]; [|reflexivity]. cbn [render_q forallb]. rewrite beq_refl, orb_true_r.
-    destruct const_facts as (E & L & _). rewrite E, L. cbn [orb andb].
-    apply tokenp_inv in Tq as [_ Pt].
-    eapply forallb_impl; [|apply tokenp_vch, Pt]. intros c Hc. rewrite Hc. reflexivity.
+  - destruct qt as [[t ext]|]; [|reflexivity]. destruct Tq as (Tq & We & _). cbn [render_q forallb]. rewrite beq_refl, orb_true_r.
+    destruct const_facts as (E & L & _). rewrite E, L. cbn [orb andb]. apply q_tail_chars; assumption.
 Qed.
 
-Lemma render_elem_plain el : wf_elem el = true ->
-  forallb (fun c => negb (beq c DQ) && negb (beq c COMMA)) (render_elem el) = true /\
-  forallb (fun c => negb (beq c QMARK)) (render_elem el) = true /\
-  forallb (fun c => negb (is_ws c)) (render_elem el) = true.
+Lemma vchsemi_plain l : forallb (fun c => vch c || beq c SEMI) l = true ->
+  forallb (fun c => negb (beq c DQ) && negb (beq c COMMA)) l = true /\
+  forallb (fun c => negb (beq c QMARK)) l = true /\
+  forallb (fun c => negb (is_ws c)) l = true.
 Proof.
-  intros H. pose proof (render_elem_chars el H) as C.
+  intros C.
   repeat split; (eapply forallb_impl; [|exact C]); intros c Hc; apply orb_true_iff in Hc as [Hc|Hc];
     try (apply vch_facts in Hc; destruct Hc as (A & B & C' & D & E & F); rewrite ?A, ?B, ?C', ?D, ?E, ?F; reflexivity);
     apply beq_eq in Hc; subst c; vm_compute; reflexivity.
 Qed.
+
+Lemma render_elem_plain vx el : wf_elem vx el = true ->
+  forallb (fun c => negb (beq c DQ) && negb (beq c COMMA)) (render_elem el) = true /\
+  forallb (fun c => negb (beq c QMARK)) (render_elem el) = true /\
+  forallb (fun c => negb (is_ws c)) (render_elem el) = true.
+Proof. intros H. apply vchsemi_plain, (render_elem_chars vx el H). Qed.
 
 (* ---------- the rfc2047 guard ---------- *)
 
@@ -204,7 +243,11 @@ Proof.
       rewrite (Hs _ Tk), (Hs _ Tx). reflexivity.
 Qed.
 
-Lemma qsep_split_q t : tokenp t = true -> qsep_split (render_q (Some t)) = ([], Some t).
+(* the text after the q separator: the q text and the rendered accept-ext parameters *)
+Definition q_tail (qt : option (bytes * list (bytes * bytes))) : option bytes :=
+  match qt with Some (t, ext) => Some (t ++ render_params ext) | None => None end.
+
+Lemma qsep_split_q t ext : tokenp t = true -> qsep_split (render_q (Some (t, ext))) = ([], Some (t ++ render_params ext)).
 Proof.
   intros Ht. destruct (tokenp_head t Ht) as (c & r & -> & Pc & _).
   cbn [render_q qsep_split]. rewrite beq_refl. unfold qsep_match.
@@ -213,18 +256,18 @@ Proof.
   rewrite skip_rws_id by (cbn [app]; apply pch_rws, Pc). reflexivity.
 Qed.
 
-Lemma qsep_split_render v ps qt :
-  wf_elem (v, ps, qt) = true ->
-  qsep_split (render_elem (v, ps, qt)) = (v ++ render_params ps, qt).
+Lemma qsep_split_render vx v ps qt :
+  wf_elem vx (v, ps, qt) = true ->
+  qsep_split (render_elem (v, ps, qt)) = (v ++ render_params ps, q_tail qt).
 Proof.
   intros H. apply wf_elem_inv in H as (Tv & W & _ & G & Tq). unfold render_elem.
   rewrite qsep_split_nosemi.
   2:{ apply tokenv_inv in Tv as [_ Pv]. eapply forallb_impl; [|exact Pv].
       intros c Hc. apply vch_facts in Hc. destruct Hc as (-> & _). reflexivity. }
   rewrite (qsep_split_params ps _ W G).
-  destruct qt as [t|].
-  - rewrite (qsep_split_q t Tq). cbn [fst snd]. rewrite app_nil_r. reflexivity.
-  - cbn [render_q qsep_split fst snd]. rewrite app_nil_r. reflexivity.
+  destruct qt as [[t ext]|].
+  - destruct Tq as (Tq & _). rewrite (qsep_split_q t ext Tq). cbn [fst snd q_tail]. rewrite app_nil_r. reflexivity.
+  - cbn [render_q qsep_split fst snd q_tail]. rewrite app_nil_r. reflexivity.
 Qed.
 
 (* ---------- parseparams ---------- *)
@@ -311,11 +354,24 @@ Proof.
   rewrite Nd. reflexivity.
 Qed.
 
+Lemma tokenp_tokenv t : tokenp t = true -> tokenv t = true.
+Proof. intros Ht. unfold tokenp in Ht. unfold tokenv. apply andb_true_iff in Ht as [-> P]. rewrite (tokenp_vch t P). reflexivity. Qed.
+
 Lemma parseparams_token t : tokenp t = true -> parseparams t = POk t [].
 Proof.
-  intros Ht. assert (tokenv t = true) as Tv.
-  { unfold tokenp in Ht. unfold tokenv. apply andb_true_iff in Ht as [-> P]. rewrite (tokenp_vch t P). reflexivity. }
-  pose proof (parseparams_render t [] Tv eq_refl eq_refl) as H. cbn [render_params flat_map] in H. rewrite app_nil_r in H. exact H.
+  intros Ht. pose proof (parseparams_render t [] (tokenp_tokenv t Ht) eq_refl eq_refl) as H.
+  cbn [render_params flat_map] in H. rewrite app_nil_r in H. exact H.
+Qed.
+
+(* HeaderElement.parse of the text after the q separator: the q text and the accept-ext parameters *)
+Lemma parse_qpart_render vx t ext :
+  tokenp t = true -> forallb wf_param ext = true -> has_dup_key [] ext = false -> no_ext vx ext = true ->
+  parse_qpart vx (Some (t ++ render_params ext)) = QText t ext.
+Proof.
+  intros Tq We Nd Nx. unfold parse_qpart.
+  destruct (vchsemi_plain _ (q_tail_chars t ext Tq We)) as (_ & NQ & NW).
+  rewrite (strip_id_forall _ NW), (guard_no_qmark _ NQ), (parseparams_render t ext (tokenp_tokenv t Tq) We Nd).
+  destruct ext as [|x r]; [reflexivity|]. destruct vx; [discriminate | reflexivity].
 Qed.
 
 (* ---------- set_param / get_param / compose ---------- *)
@@ -358,54 +414,55 @@ Section Quality.
 Context {Q : Type}.
 Variable parse_q : bool -> bytes -> qres Q.
 Variable qeqb qltb : Q -> Q -> bool.
+Variable vq vx : variant.
 
 Definition star_value (star : bool) (v : bytes) : bytes := if star && bytes_eqb v [STAR] then [STAR; SLASH; STAR] else v.
 
-(* the element a well-formed description denotes, given the value [q] of its q text (or of "1") *)
-Definition expected (star : bool) (el : bytes * list (bytes * bytes) * option bytes) (q : Q) : @elem Q :=
+(* the element a well-formed description denotes, given the value [q] of its q text (or of "1"):
+   the media-range parameters, then q, then the accept-ext parameters *)
+Definition expected (star : bool) (el : xel) (q : Q) : @elem Q :=
   let '(v, ps, qt) := el in
   let value := star_value star v in
-  let '(qb, ps') := match qt with Some t => (true, ps ++ [(QKEY, t)]) | None => (false, ps) end in
+  let '(qb, ps') := match qt with Some (t, ext) => (true, ps ++ (QKEY, t) :: ext) | None => (false, ps) end in
   mkelem value ps' qb (Some q) (compose value qb ps').
 
-Definition q_of (el : bytes * list (bytes * bytes) * option bytes) : bool * bytes :=
-  match snd el with Some t => (true, t) | None => (false, ONE) end.
+Definition q_of (el : xel) : bool * bytes :=
+  match snd el with Some (t, _) => (true, t) | None => (false, ONE) end.
 
 Theorem accept_parse_render star el q :
-  wf_elem el = true -> parse_q (fst (q_of el)) (snd (q_of el)) = QVal q ->
-  accept_parse parse_q star (render_elem el) = EOk (expected star el q).
+  wf_elem vx el = true -> parse_q (fst (q_of el)) (snd (q_of el)) = QVal q ->
+  accept_parse parse_q vq vx star (render_elem el) = EOk (expected star el q).
 Proof.
   destruct el as [[v ps] qt]. intros W PQ.
-  destruct (wf_elem_inv _ _ _ W) as (Tv & Wp & Nd & G & Tq).
-  destruct (render_elem_plain _ W) as (_ & NQ & _).
-  unfold accept_parse. rewrite (guard_no_qmark _ NQ), (qsep_split_render v ps qt W).
+  destruct (wf_elem_inv _ _ _ _ W) as (Tv & Wp & Nd & G & Tq).
+  destruct (render_elem_plain _ _ W) as (_ & NQ & _).
+  unfold accept_parse. rewrite (guard_no_qmark _ NQ), (qsep_split_render vx v ps qt W).
   assert (strip (v ++ render_params ps) = v ++ render_params ps) as ->.
-  { assert (wf_elem (v, ps, None) = true) as W0.
+  { assert (wf_elem vx (v, ps, None) = true) as W0.
     { unfold wf_elem. rewrite Tv, Wp, Nd, G. reflexivity. }
-    destruct (render_elem_plain _ W0) as (_ & _ & NW). unfold render_elem in NW. cbn [render_q] in NW. rewrite app_nil_r in NW.
+    destruct (render_elem_plain _ _ W0) as (_ & _ & NW). unfold render_elem in NW. cbn [render_q] in NW. rewrite app_nil_r in NW.
     apply strip_id_forall, NW. }
   rewrite (parseparams_render v ps Tv Wp Nd).
-  destruct qt as [t|]; cbn [q_of fst snd] in PQ.
-  - unfold parse_qpart.
-    assert (forallb pch t = true) as Pt by (apply tokenp_inv in Tq; destruct Tq as [_ R]; exact R).
-    rewrite (strip_id_forall t).
-    2:{ eapply forallb_impl; [|exact Pt]. intros c Hc. apply pch_facts in Hc. destruct Hc as (_ & _ & _ & _ & _ & _ & _ & _ & -> & _). reflexivity. }
-    rewrite guard_no_qmark.
-    2:{ eapply forallb_impl; [|exact Pt]. intros c Hc. apply pch_facts in Hc. destruct Hc as (_ & _ & _ & _ & -> & _). reflexivity. }
-    rewrite (parseparams_token t Tq). cbv zeta.
-    rewrite (set_param_absent QKEY t ps G).
-    assert (get_param QKEY (ps ++ [(QKEY, t)]) = Some t) as ->.
-    { rewrite <- (set_param_absent QKEY t ps G). apply get_set_param. }
-    destruct (tokenp_inv t Tq) as [Nt _]. rewrite Nt, PQ. reflexivity.
-  - cbn [parse_qpart]. cbv zeta. rewrite G. cbn [isnil ONE]. rewrite PQ. reflexivity.
+  destruct qt as [[t ext]|]; cbn [q_of fst snd] in PQ; cbn [q_tail].
+  - destruct Tq as (Tq & We & Nde & Nk & Nx).
+    rewrite (parse_qpart_render vx t ext Tq We Nde Nx). cbv zeta beta iota.
+    rewrite (set_param_absent QKEY t ps G), Nk.
+    assert (get_param QKEY ((ps ++ [(QKEY, t)]) ++ ext) = Some t) as ->.
+    { apply get_param_app_some. rewrite <- (set_param_absent QKEY t ps G). apply get_set_param. }
+    destruct (tokenp_inv t Tq) as [Nt _]. rewrite Nt, PQ.
+    replace (match vq with AsFound => false | Repaired => false end) with false by (destruct vq; reflexivity).
+    unfold expected. rewrite <- app_assoc. reflexivity.
+  - cbn [parse_qpart]. cbv zeta beta iota. cbn [existsb]. rewrite app_nil_r, G. cbn [isnil ONE]. rewrite PQ.
+    replace (match vq with AsFound => false | Repaired => false end) with false by (destruct vq; reflexivity).
+    reflexivity.
 Qed.
 
 (* ---------- the whole field ---------- *)
 
-Definition render_field (els : list (bytes * list (bytes * bytes) * option bytes)) : bytes :=
+Definition render_field (els : list xel) : bytes :=
   join_with CSP (map render_elem els).
 
-Lemma expected_text_no_qmark star el q : wf_elem el = true -> rfc2047_guard (e_text (expected star el q)) = false.
+Lemma expected_text_no_qmark star el q : wf_elem vx el = true -> rfc2047_guard (e_text (expected star el q)) = false.
 Proof.
   destruct el as [[v ps] qt]. intros W. apply wf_elem_inv in W as (Tv & Wp & _ & _ & Tq).
   apply guard_no_qmark. unfold expected.
@@ -413,36 +470,37 @@ Proof.
   { unfold star_value. destruct (star && bytes_eqb v [STAR]); [vm_compute; reflexivity|].
     apply tokenv_inv in Tv as [_ Pv]. eapply forallb_impl; [|exact Pv].
     intros c Hc. apply vch_facts in Hc. destruct Hc as (_ & _ & -> & _). reflexivity. }
-  destruct qt as [t|]; cbn [e_text]; apply compose_no_qmark; try assumption.
-  rewrite forallb_app, Wp. cbn [forallb]. unfold wf_param. cbn [fst snd]. rewrite Tq.
+  destruct qt as [[t ext]|]; cbn [e_text]; apply compose_no_qmark; try assumption.
+  destruct Tq as (Tq & We & _).
+  rewrite forallb_app, Wp. cbn [forallb]. unfold wf_param at 1. cbn [fst snd]. rewrite Tq, We.
   replace (tokenp QKEY) with true by (vm_compute; reflexivity). reflexivity.
 Qed.
 
 Theorem elements_render star els es0 :
-  els <> [] -> forallb wf_elem els = true ->
+  els <> [] -> forallb (wf_elem vx) els = true ->
   Forall2 (fun el e => exists q, parse_q (fst (q_of el)) (snd (q_of el)) = QVal q /\ e = expected star el q) els es0 ->
-  elements parse_q qeqb qltb star (render_field els) = FOk (sorted_rev (lt_elem qeqb qltb) es0).
+  elements parse_q qeqb qltb vq vx star (render_field els) = FOk (sorted_rev (lt_elem qeqb qltb) es0).
 Proof.
   intros Ne W F. unfold elements, render_field.
   destruct els as [|el els]; [contradiction|]. cbn [map].
   assert (Forall (fun x => forallb (fun c => negb (beq c DQ) && negb (beq c COMMA)) x = true) (render_elem el :: map render_elem els)) as Pl.
   { apply Forall_forall. intros x Hx. change (render_elem el :: map render_elem els) with (map render_elem (el :: els)) in Hx.
-    apply in_map_iff in Hx as [e [<- He]]. rewrite forallb_forall in W. apply render_elem_plain, W, He. }
+    apply in_map_iff in Hx as [e [<- He]]. rewrite forallb_forall in W. apply (render_elem_plain vx), W, He. }
   assert (isnil (join_with CSP (render_elem el :: map render_elem els)) = false) as ->.
   { cbn [forallb] in W. apply andb_true_iff in W as [W1 _]. destruct el as [[v ps] qt].
     apply wf_elem_inv in W1 as (Tv & _). apply tokenv_inv in Tv as [Nv _].
     destruct v as [|c v]; [discriminate|]. destruct (map render_elem els); reflexivity. }
   rewrite (qsplit_join _ _ Pl). cbn [map].
-  assert (collect (accept_parse parse_q star (strip (render_elem el)) ::
-            map (fun p => accept_parse parse_q star (strip p)) (map (cons SP) (map render_elem els))) = Some (Some es0)) as ->.
-  { clear Ne Pl. change (collect (map (fun p => accept_parse parse_q star (strip p)) (render_elem el :: map (cons SP) (map render_elem els))) = Some (Some es0)).
-    assert (forall x, wf_elem x = true -> strip (render_elem x) = render_elem x /\ strip (SP :: render_elem x) = render_elem x) as St.
-    { intros x Hx. destruct (render_elem_plain x Hx) as (_ & _ & NW). split; [apply strip_id_forall, NW|].
+  assert (collect (accept_parse parse_q vq vx star (strip (render_elem el)) ::
+            map (fun p => accept_parse parse_q vq vx star (strip p)) (map (cons SP) (map render_elem els))) = Some (Some es0)) as ->.
+  { clear Ne Pl. change (collect (map (fun p => accept_parse parse_q vq vx star (strip p)) (render_elem el :: map (cons SP) (map render_elem els))) = Some (Some es0)).
+    assert (forall x, wf_elem vx x = true -> strip (render_elem x) = render_elem x /\ strip (SP :: render_elem x) = render_elem x) as St.
+    { intros x Hx. destruct (render_elem_plain vx x Hx) as (_ & _ & NW). split; [apply strip_id_forall, NW|].
       unfold strip. change (SP :: render_elem x) with ([SP] ++ render_elem x). rewrite lstrip_ws_app by (vm_compute; reflexivity).
       apply strip_id_forall, NW. }
     inversion F as [|? e0 ? es1 [q [PQ ->]] F']; subst. cbn [forallb] in W. apply andb_true_iff in W as [W1 W2].
     cbn [map collect]. rewrite (proj1 (St el W1)), (accept_parse_render star el q W1 PQ).
-    assert (collect (map (fun p => accept_parse parse_q star (strip p)) (map (cons SP) (map render_elem els))) = Some (Some es1)) as ->; [|reflexivity].
+    assert (collect (map (fun p => accept_parse parse_q vq vx star (strip p)) (map (cons SP) (map render_elem els))) = Some (Some es1)) as ->; [|reflexivity].
     clear -F' W2 St. induction F' as [|x e l es [q [PQ ->]] F IH]; [reflexivity|].
     cbn [forallb] in W2. apply andb_true_iff in W2 as [Wx Wl].
     cbn [map collect]. rewrite (proj2 (St x Wx)), (accept_parse_render star x q Wx PQ), (IH Wl). reflexivity. }
@@ -451,7 +509,7 @@ Proof.
     cbn [forallb] in W. apply andb_true_iff in W as [Wx Wl]. cbn [forallb]. rewrite (expected_text_no_qmark star x q Wx), (IH Wl). reflexivity. }
   assert (existsb (fun e => negb (is_some (e_quality e))) es0 = false) as ->.
   { apply existsb_false_forall. clear -F. induction F as [|x e l es [q [_ ->]] F IH]; [reflexivity|].
-    cbn [forallb]. rewrite IH. destruct x as [[v ps] [t|]]; reflexivity. }
+    cbn [forallb]. rewrite IH. destruct x as [[v ps] [[t ext]|]]; reflexivity. }
   rewrite andb_false_r. reflexivity.
 Qed.
 
